@@ -109,9 +109,23 @@ def _consuming_blocks(f, l):
             elif p.get("p"):
                 # a field read: does it end up in an Extent aggregate?
                 tgt = n["lhs"]["l"]
+                # written straight into a field of another extent (`last.end = e.end`)
+                lp0 = [e_ for e_ in (n["lhs"].get("p") or []) if isinstance(e_, dict) and "f" in e_]
+                if lp0 and lp0[-1].get("adt") == EXTENT:
+                    out.add(site.bb)
                 for s2, h2 in du.uses.get(tgt, []):
                     if not s2.is_term and s2.node["rv"]["k"] == "agg" and s2.node["rv"].get("adt") == EXTENT:
                         out.add(site.bb)
+                    lp2 = [e_ for e_ in (s2.node.get("lhs", {}).get("p") or []) if isinstance(e_, dict) and "f" in e_] \
+                        if not s2.is_term else []
+                    if lp2 and lp2[-1].get("adt") == EXTENT and h2 == "rv":
+                        out.add(site.bb)
+                    if not s2.is_term and h2 == "rv" and s2.node["rv"]["k"] == "bin":
+                        # `last.shared &= e.shared`
+                        lp3 = [e_ for e_ in (s2.node["lhs"].get("p") or []) if isinstance(e_, dict) and "f" in e_]
+                        t3 = s2.node["lhs"]["l"]
+                        if lp3 and lp3[-1].get("adt") == EXTENT:
+                            out.add(site.bb)
         elif rv["k"] == "agg":
             if any(op_local(o) == l and "mv" in o for o in rv["fields"]):
                 out.add(site.bb)
@@ -210,6 +224,15 @@ def merge_linear(fx):
     opt_locals = [i for i, lc in enumerate(f.locals) if lc["ty"].startswith("core::option::Option<libfs::Extent")
                   and any(site.bb in body and not site.is_term and site.node["rv"]["k"] == "agg"
                           and site.node["rv"].get("variant") == "Some" for site, w in du.defs.get(i, []))]
+    if opt_locals:
+        # the slot may travel (a tuple accumulator of `fold`, a destructuring after the loop): every Option<Extent>
+        # local fed from it is the same slot
+        base = set(opt_locals)
+        for i, lc in enumerate(f.locals):
+            if i not in base and lc["ty"].startswith("core::option::Option<libfs::Extent"):
+                _a, _fl, seen_ = Prov(f).origins(i)
+                if seen_ & base:
+                    opt_locals.append(i)
     exits = sorted(set(s_ for b_ in body for s_ in cfg.succ[b_] if s_ not in body))
     push_blocks = []
     for bi, t in q.calls_to(f, PUSH):
@@ -219,6 +242,15 @@ def merge_linear(fx):
         atoms, fields, seen = Prov(f).origins(l) if l is not None else ([], set(), set())
         if any(x in seen for x in opt_locals):
             push_blocks.append(bi)
+    # `merged.extend(last)`: extending a Vec with an Option pushes it when it is Some
+    for bi, t in q.calls_to(f, "core::iter::traits::collect::Extend::extend"):
+        if bi in body or len(t["args"]) < 2:
+            continue
+        l = op_local(t["args"][1])
+        if l is not None and f.locals[l]["ty"].startswith("core::option::Option<libfs::Extent"):
+            atoms, fields, seen = Prov(f).origins(l)
+            if l in opt_locals or any(x in seen for x in opt_locals):
+                push_blocks.append(bi)
     none_edges = []
     for bi, b in enumerate(f.blocks):
         if bi in body or b.get("cleanup"):
